@@ -172,6 +172,9 @@ def run(chk: Check):
             if t[0] == "call" and t[1] == "new:" + hk and n.args:
                 extra.append((n, R.expr(init, n.args[0])))
     res = _typestate(chk, init, "open", allow_end=True, extra=extra)
+    from ..rulelib import check_superseded
+
+    check_superseded(chk, ["disk/vmdk.py"])
     for n, why in dead_reads(chk, init):
         chk.violated("K-LIVE", "dead-read", n, why)
     if not dead_reads(chk, init):
